@@ -41,6 +41,13 @@ def boundsSlice (lo hi : Rat) : Int × Int :=
   let stop := pyCeil hi
   (maxI (start - 1) 0, stop + 1)
 
+/-- `_sanitize_polygon_bounds` on one axis of `n` pixels: the bounds `[lo, hi]` (array coordinates, pixel `i` covers
+`[i - 1/2, i + 1/2]`) are reported as "no slice on area" -/
+def rejectAxis (n : Nat) (lo hi : Rat) : Bool := decide (hi < -(1/2)) || decide (lo > (n : Rat) - 1/2)
+
+/-- the test as it stood before finding F25 was repaired (pixel centres instead of footprints) -/
+def rejectAxisOld (n : Nat) (lo hi : Rat) : Bool := decide (hi < 0) || decide (lo ≥ (n : Rat))
+
 /-- `SwathSlicer._assemble_slices` on one axis -/
 def assemble (slices : List (Int × Int)) : Option (Int × Int) :=
   match slices with
@@ -50,7 +57,13 @@ def assemble (slices : List (Int × Int)) : Option (Int × Int) :=
 /-! ### driver -/
 open Wire
 
-def handle : List String → Option String
+def handleReject : List String → Option String
+  | ["reject", n, lo, hi] => do
+    let n ← nat? n; let lo ← rat? lo; let hi ← rat? hi
+    some (showBool (rejectAxis n lo hi))
+  | _ => none
+
+def handle0 : List String → Option String
   | "samecrs" :: rest => do
     let (g, tl) ← grid? rest
     match tl with
@@ -65,5 +78,10 @@ def handle : List String → Option String
     let r := boundsSlice lo hi
     some s!"{r.1} {r.2}"
   | _ => none
+
+def handle (toks : List String) : Option String :=
+  match handleReject toks with
+  | some r => some r
+  | none => handle0 toks
 
 end PyresampleModel.C11
